@@ -1,6 +1,7 @@
 import Yomm2.Props.C04
 import Yomm2.Proofs.InstallTotal
 import Yomm2.Proofs.CompileSlots
+import Yomm2.Proofs.InstallSize
 /-!
 # C04 — the cells of a class's v-table are exclusive, hold what the walk expects, and lie in range
 -/
@@ -41,5 +42,14 @@ theorem C04_update_stays_in_bounds (proj : Nat → Nat) (reg : Registry) (hwf : 
     (∃ c inst, compile proj reg = .ok c ∧ install c = .ok inst) ∨
       ∃ e, compile proj reg = .error e ∧ CompileTotal.Documented e :=
   InstallTotal.compile_install_total proj reg hwf
+
+/-- **every address a call reads lies inside the policy's dispatch data as sized by that update**: a
+    read that succeeds is below the number of words written, which is at most `dispatch_data.size()`;
+    any other read is a fault, and `C01_update_then_call` shows that the walk of a legal call returns a
+    function word, so none of its reads is one -/
+theorem C04_reads_inside_dispatch_data (c : Compiled) (inst : Installed) (hinst : install c = .ok inst)
+    (i : Int) (w : Word) (h : readWord inst i = .ok w) : 0 ≤ i ∧ i.toNat < inst.dataSize := by
+  obtain ⟨h0, h1, _⟩ := read_in_bounds inst i w h
+  exact ⟨h0, Nat.lt_of_lt_of_le h1 (InstallSize.install_size c inst hinst)⟩
 
 end Yomm2.Props.C04
